@@ -456,6 +456,30 @@ def run_plastic(case):
                 A2 = np.asarray(um2.hessian([np.ascontiguousarray(sets[s2]), svh])[0], float)
                 c.trans += 2
                 compare_tangent(c, f"history/{s1}>{s2}/{second}", A2, fds[s2], labels, "tangent evaluated after another evaluation of the same shape vs FD of the stress update")
+    # a batch that contains exactly undeformed points (zero strain, zero deviator: the flow direction is undefined there) next
+    # to yielding ones: every point's stress / tangent / state must be what the point gives when evaluated alone
+    if case["regime"] != "elastic":
+        I4_ = np.eye(3)[:, :, None, None]
+        Fz = np.ascontiguousarray(np.where((np.arange(n) % 3 == 0)[None, None, :, None], I4_, F))
+        rz = um.gradient([Fz, sv])
+        Pz, svz = np.asarray(rz[0], float), np.asarray(rz[-1], float)
+        Az = np.broadcast_to(np.asarray(um.hessian([Fz, sv])[0], float), (3, 3, 3, 3, n, 1))
+        c.trans += 2
+        if not (np.isfinite(Pz).all() and np.isfinite(svz).all() and np.isfinite(Az).all()):
+            badp = sorted({int(j) for j in np.argwhere(~np.isfinite(Pz))[:, 2]})
+            c.bad("undeformed-in-batch/finite", "non-finite stress / state / tangent in a batch that mixes undeformed and yielding points", badp[:6], "finite")
+        else:
+            for j in range(n):
+                rj = um.gradient([np.ascontiguousarray(Fz[:, :, j:j + 1]), np.ascontiguousarray(sv[:, j:j + 1])])
+                Aj = np.broadcast_to(np.asarray(um.hessian([np.ascontiguousarray(Fz[:, :, j:j + 1]), np.ascontiguousarray(sv[:, j:j + 1])])[0], float), (3, 3, 3, 3, 1, 1))
+                c.trans += 2
+                e1 = np.abs(np.asarray(rj[0], float)[..., 0, 0] - Pz[..., j, 0]).max() / max(np.abs(Pz).max(), 1e-6)
+                e2 = np.abs(np.asarray(rj[-1], float)[:, 0, 0] - svz[:, j, 0]).max() / max(np.abs(svz).max(), 1e-6)
+                e3 = np.abs(Aj[..., 0, 0] - Az[..., j, 0]).max() / max(np.abs(Az).max(), 1e-6)
+                if not (e1 < 1e-10 and e2 < 1e-10 and e3 < 1e-10):
+                    c.bad(f"undeformed-in-batch/point{j}", "point of a batch that mixes undeformed and yielding points vs the same point evaluated alone", dict(stress=float(e1), state=float(e2), tangent=float(e3)), 0, 1e-10)
+                    break
+            c.traces += 1
     if case["regime"] == "elastic" and grew:
         c.bad("regime", "elastic regime expected", grew, 0)
     if case["regime"] != "elastic" and grew < n:
